@@ -15,7 +15,7 @@ import (
 
 // component s_dnswatch (C56, T2): the real dns resolver watcher under virtual time with a
 // scripted NetResolver.  Ops: script <o|f…> (results of the next lookups; default o),
-// build <MinResolutionInterval ns>, rn, sleep <ns>, close.
+// dur <ns> (how long each following lookup takes), build <MinResolutionInterval ns>, rn, sleep <ns>, close.
 // Output: `t=<ns since start> lookups=<t:o|t:f,…|->` = the lookups that ran during the op.
 type dnsWatch struct {
 	start   time.Time
@@ -24,6 +24,8 @@ type dnsWatch struct {
 	r       resolver.Resolver
 	oldMin  time.Duration
 	closed  bool
+	dur     time.Duration // how long each scripted lookup takes (virtual time)
+	busyTil time.Time     // a lookup is in progress until then
 }
 
 func (d *dnsWatch) LookupHost(ctx context.Context, host string) ([]string, error) {
@@ -33,6 +35,10 @@ func (d *dnsWatch) LookupHost(ctx context.Context, host string) ([]string, error
 		d.script = d.script[1:]
 	}
 	t := time.Since(d.start).Nanoseconds()
+	if d.dur > 0 {
+		d.busyTil = time.Now().Add(d.dur)
+		time.Sleep(d.dur)
+	}
 	if ok {
 		d.log = append(d.log, fmt.Sprintf("%d:o", t))
 		return []string{"1.2.3.4"}, nil
@@ -57,6 +63,20 @@ func (d *dnsWatch) ParseServiceConfig(string) *serviceconfig.ParseResult {
 	return &serviceconfig.ParseResult{}
 }
 
+// quiesce lets a lookup that is in progress (it takes d.dur of virtual time) finish, so that every
+// op ends with the watcher blocked on its ResolveNow channel or its timer, never inside a lookup.
+func (d *dnsWatch) quiesce() {
+	settle()
+	for i := 0; i < 1000; i++ {
+		rem := time.Until(d.busyTil)
+		if rem <= 0 {
+			return
+		}
+		time.Sleep(rem)
+		settle()
+	}
+}
+
 func (d *dnsWatch) flush() string {
 	s := "-"
 	if len(d.log) > 0 {
@@ -77,6 +97,9 @@ func (d *dnsWatch) Op(f []string) string {
 	case "script":
 		d.script = append(d.script, []byte(f[1])...)
 		return d.flush()
+	case "dur":
+		d.dur = time.Duration(atoi64s(f[1]))
+		return d.flush()
 	case "build":
 		dns.MinResolutionInterval = time.Duration(atoi64s(f[1]))
 		dns.VerifSetNetResolver(d)
@@ -86,17 +109,17 @@ func (d *dnsWatch) Op(f []string) string {
 			return "builderr " + err.Error()
 		}
 		d.r = r
-		settle()
+		d.quiesce()
 		return d.flush()
 	case "rn":
 		if d.r != nil {
 			d.r.ResolveNow(resolver.ResolveNowOptions{})
 		}
-		settle()
+		d.quiesce()
 		return d.flush()
 	case "sleep":
 		time.Sleep(time.Duration(atoi64s(f[1])))
-		settle()
+		d.quiesce()
 		return d.flush()
 	case "close":
 		if d.r != nil && !d.closed {
